@@ -166,4 +166,4 @@ func runC29(e *core.Env, s *c29Scenario) {
 	m.Close()
 }
 
-func init() { core.Register("C29", genC29, runC29) }
+func init() { core.Register("C29wu", genC29, runC29) }
